@@ -4,6 +4,8 @@ use crate::{Report, RunCtx, Tier, Violation, out, run_worker};
 use serde_json::{Value, json};
 use std::collections::HashMap;
 
+pub mod c01;
+pub mod c04;
 pub mod c06;
 pub mod c08;
 pub mod c08_solve;
@@ -30,6 +32,11 @@ pub struct Check {
 
 pub fn registry() -> Vec<Check> {
     vec![
+        Check { id: "C01", run: c01::run, replay: c01::replay, worker: Some(c01::worker) },
+        Check { id: "C02", run: c01::run, replay: c01::replay, worker: Some(c01::worker) },
+        Check { id: "C03", run: c01::run, replay: c01::replay, worker: Some(c01::worker) },
+        Check { id: "C04", run: c04::run, replay: c04::replay, worker: Some(c04::worker) },
+        Check { id: "C05", run: c04::run, replay: c04::replay, worker: Some(c04::worker) },
         Check { id: "C06", run: c06::run, replay: c06::replay, worker: None },
         Check { id: "C08", run: c08::run, replay: c08::replay, worker: None },
         Check { id: "C09", run: c09::run, replay: c09::replay, worker: None },
